@@ -616,8 +616,9 @@ impl Vt100 {
 
 /// A small terminal with the same contract (autowrap with deferred wrap at the right edge, LF
 /// scrolls at the bottom row, cursor-up/down clamp to the visible screen, CR + erase-line for
-/// clear_line) and unlimited scroll-back.  It mirrors coq/model/Term.v; `bin/termcheck.rs`
-/// cross-validates it against the vt100 crate on the visible screen and cursor.
+/// clear_line) and unlimited scroll-back.  It mirrors coq/model/Term.v; the `TermCase`s of bin c01 (run by
+/// `./check C01`) tie Term.v, this terminal and the vt100 crate together on observed and random call streams
+/// (`bin/termcheck.rs` does the same stand-alone; `./check` does not run it).
 #[derive(Clone)]
 pub struct Vt {
     pub w: usize,
@@ -1055,4 +1056,261 @@ pub fn gen_small_tmpl(r: &mut Rng, w: usize, i: usize) -> Vec<TPart> {
         5 => vec![TPart::Lit(id), TPart::Prefix, TPart::Msg, TPart::Pos],
         _ => vec![TPart::Lit(id), TPart::Msg, TPart::NewLine, TPart::Lit("=".into()), TPart::Pos, TPart::NewLine],
     }
+}
+
+// ------------------------------------------------------------------ oracle-only stream: zero-width and double-width text
+/// display width of the characters this stream generates (combining marks / ZWJ / variation selector: 0,
+/// the CJK characters of `UW_WIDE`: 2, everything else: 1)
+pub fn uw_char_width(c: char) -> usize {
+    match c as u32 {
+        0x300..=0x36F | 0x200D | 0xFE0F | 0x20D0..=0x20FF => 0,
+        x if x >= 0x1100 => 2,
+        _ => 1,
+    }
+}
+const UW_WIDE: [char; 6] = ['進', '捗', '状', '況', '確', '認'];
+const UW_ZERO: [char; 5] = ['\u{301}', '\u{308}', '\u{323}', '\u{300}', '\u{20D7}'];
+
+/// the rows a line occupies on a terminal `w` columns wide (by DISPLAY width; zero-width characters stay in
+/// the cell of their base character, also at the right edge)
+pub fn uw_rows(line: &str, w: usize) -> Vec<String> {
+    let mut out = vec![String::new()];
+    let mut col = 0;
+    for c in line.chars() {
+        let cw = uw_char_width(c);
+        if cw > 0 && col + cw > w {
+            out.push(String::new());
+            col = 0;
+        }
+        out.last_mut().unwrap().push(c);
+        col += cw;
+    }
+    out.iter().map(|x| x.trim_end().to_string()).collect()
+}
+
+/// A text of display width `cols` that starts at display column `start` of a row `w` wide: ASCII letters,
+/// letters with 1..3 combining marks (more chars than columns), double-width characters (fewer chars than
+/// columns, never straddling a row boundary - vt100 and real terminals leave a hole there, outside every model).
+pub fn gen_uw_text(r: &mut Rng, start: usize, cols: usize, w: usize, zero: bool, wide: bool) -> String {
+    let mut s = String::new();
+    let mut col = start;
+    let end = start + cols;
+    while col < end {
+        let room_in_row = w - col % w;
+        if wide && w >= 2 && room_in_row >= 2 && end - col >= 2 && r.chance(1, 3) {
+            s.push(*r.pick(&UW_WIDE));
+            col += 2;
+        } else {
+            s.push((b'a' + r.below(26) as u8) as char);
+            col += 1;
+            if zero && r.chance(1, 2) {
+                for _ in 0..r.range(1, 3) {
+                    s.push(*r.pick(&UW_ZERO));
+                }
+            }
+        }
+    }
+    s
+}
+
+/// Oracle-only stream for the row accounting of lines whose `chars().count()` differs from their display
+/// width: zero-width combining characters and double-width characters
+///   - in messages / prefixes of the NON-LAST bars of a MultiProgress (one-line templates), and
+///   - in the non-last lines of two- and three-line templates of a single bar,
+/// with `println` (bar / MultiProgress) between the draws, executed on the implementation and judged on the
+/// vt100 crate (H = 40: nothing scrolls):  after every painted call the screen is exactly
+///     every log line, once, in order   ++   the current frame,
+/// i.e. no redraw erased or duplicated a log line and no frame row was left behind.
+/// Display widths are clustered around W (real width <= W < char count and the converse).
+/// Classes: 'log-line-lost-next-to-non-unit-width-text' (the log part differs),
+/// 'non-unit-width-frame-rows-miscounted' (only the region differs).  Returns the number of screen checks.
+pub fn unicode_width_stream(s: &mut crate::Session, r: &mut Rng, n: usize) -> u64 {
+    fn render(t: &[TPart], g: &Getters) -> Vec<String> {
+        let mut all = String::new();
+        for p in t {
+            match p {
+                TPart::Lit(l) => all.push_str(l),
+                TPart::Msg => all.push_str(&g.msg),
+                TPart::Prefix => all.push_str(&g.prefix),
+                TPart::Pos => all.push_str(&g.pos.to_string()),
+                TPart::Len => all.push_str(&g.len.unwrap_or(g.pos).to_string()),
+                TPart::Spinner => {}
+                TPart::NewLine => all.push('\n'),
+            }
+        }
+        all.split('\n').map(|x| x.to_string()).collect()
+    }
+    let mut checks = 0u64;
+    for i in 0..n {
+        let w = *r.pick(&[6u16, 8, 10, 12, 22]);
+        let h = 40u16;
+        let wu = w as usize;
+        let multi = i % 2 == 1;
+        let (zero, wide) = match r.below(4) {
+            0 => (true, false),
+            1 => (false, true),
+            _ => (true, true),
+        };
+        // display width of a generated text: at / around the terminal width (minus what the template adds)
+        let pick_cols = |r: &mut Rng, used: usize| -> usize {
+            let room = wu.saturating_sub(used);
+            match r.below(6) {
+                0 => room,
+                1 => room.saturating_sub(1),
+                2 => room.saturating_sub(2),
+                3 => room + 1,
+                4 => room + wu,
+                _ => r.below(2 * wu as u64 + 1) as usize,
+            }
+        };
+        let mut ops: Vec<Op> = vec![];
+        let bars: Vec<BarInit>;
+        // (bar, part) slots that take non-unit-width text, with the display columns the template puts before them
+        let mut slots: Vec<(usize, bool, usize)> = vec![]; // (bar, is_prefix, columns before)
+        if multi {
+            let nb = r.range(2, 3) as usize;
+            let mut bs = vec![];
+            for b in 0..nb {
+                let id = ((b'A' + b as u8) as char).to_string();
+                let tmpl = if b + 1 == nb {
+                    vec![TPart::Lit(id), TPart::Lit(" last ".into()), TPart::Pos]
+                } else if r.chance(1, 2) {
+                    slots.push((b, false, 1));
+                    vec![TPart::Lit(id), TPart::Msg]
+                } else {
+                    slots.push((b, true, 0));
+                    vec![TPart::Prefix, TPart::Lit(id)]
+                };
+                bs.push(BarInit { len: Some(9), fin: Fin::AndLeave, tmpl, target: TInit::Hidden });
+            }
+            for b in 0..nb {
+                ops.push(Op::Insert(Loc::End, b));
+            }
+            for b in 0..nb {
+                ops.push(Op::Tick(b));
+            }
+            bars = bs;
+        } else {
+            let tmpl = match r.below(3) {
+                0 => {
+                    slots.push((0, false, 0));
+                    vec![TPart::Msg, TPart::NewLine, TPart::Pos, TPart::Lit("/".into()), TPart::Len]
+                }
+                1 => {
+                    slots.push((0, true, 0));
+                    slots.push((0, false, 0));
+                    vec![TPart::Prefix, TPart::NewLine, TPart::Msg, TPart::NewLine, TPart::Lit("row ".into()), TPart::Pos]
+                }
+                _ => {
+                    slots.push((0, false, 2));
+                    vec![TPart::Lit("> ".into()), TPart::Msg, TPart::NewLine, TPart::Lit("=".into()), TPart::Pos]
+                }
+            };
+            bars = vec![BarInit { len: Some(9), fin: Fin::AndLeave, tmpl, target: TInit::Term(None) }];
+            ops.push(Op::Tick(0));
+        }
+        let nb = bars.len();
+        let setup = ops.len();
+        let nops = r.range(4, 10);
+        let mut logn = 0;
+        for _ in 0..nops {
+            let (b, is_prefix, used) = *r.pick(&slots);
+            ops.push(match r.below(9) {
+                0..=3 => {
+                    let k = pick_cols(r, used);
+                    let t = gen_uw_text(r, used % wu, k, wu, zero, wide);
+                    if is_prefix {
+                        Op::SetPrefix(b, t)
+                    } else {
+                        Op::SetMsg(b, t)
+                    }
+                }
+                4..=5 => {
+                    logn += 1;
+                    let mut line = format!("log{logn}");
+                    if r.chance(1, 3) {
+                        let k = pick_cols(r, line.len());
+                        line.push_str(&gen_uw_text(r, line.len() % wu, k, wu, zero, wide));
+                    }
+                    if multi && r.chance(1, 2) {
+                        Op::MPrintln(line)
+                    } else {
+                        Op::Println(r.below(nb as u64) as usize, line)
+                    }
+                }
+                6 => Op::Tick(r.below(nb as u64) as usize),
+                7 => Op::Inc(r.below(nb as u64) as usize, 1),
+                _ => Op::ForceDraw(r.below(nb as u64) as usize),
+            });
+        }
+        let case = Case {
+            w,
+            h,
+            fail_at: vec![],
+            fail_from: None,
+            mp: if multi { TInit::Term(None) } else { TInit::Hidden },
+            bars,
+            ops: ops.into_iter().enumerate().map(|(j, o)| ((j as u64 + 1) * 1_000_000_000, o)).collect(),
+        };
+        let obs = run_case(&case);
+        let desc = format!("NON-UNIT-WIDTH {}", describe(&case));
+        let mut vt = Vt100::new(w, h);
+        let mut log: Vec<String> = vec![];
+        let mut bad: Option<(&'static str, String)> = None;
+        for (j, ((_, op), o)) in case.ops.iter().zip(obs.iter()).enumerate() {
+            if let Some(p) = &o.panic {
+                bad = Some(("panic", format!("panic: {p}")));
+                break;
+            }
+            match op {
+                Op::Println(_, m) | Op::MPrintln(m) => log.push(m.clone()),
+                _ => {}
+            }
+            let fed = {
+                let v = &mut vt;
+                catch(|| v.feed(&o.emitted)).is_ok()
+            };
+            if !fed {
+                break; // the vt100 crate itself gave up: no reference
+            }
+            if j + 1 < setup || !o.emitted.iter().any(|x| *x == TOp::Flush) {
+                continue;
+            }
+            let log_rows: Vec<String> = log.iter().flat_map(|l| uw_rows(l, wu)).collect();
+            let mut want = log_rows.clone();
+            for (b, g) in o.getters.iter().enumerate() {
+                if let Some(g) = g {
+                    for l in render(&case.bars[b].tmpl, g) {
+                        want.extend(uw_rows(&l, wu));
+                    }
+                }
+            }
+            while want.last().map_or(false, |x| x.is_empty()) {
+                want.pop();
+            }
+            let mut got = vt.visible_rows();
+            while got.last().map_or(false, |x| x.is_empty()) {
+                got.pop();
+            }
+            checks += 1;
+            s.count("non_unit_width_screen_checks");
+            if got != want {
+                let log_ok = got.len() >= log_rows.len() && got[..log_rows.len()] == log_rows[..];
+                bad = Some((
+                    if log_ok { "non-unit-width-frame-rows-miscounted" } else { "log-line-lost-next-to-non-unit-width-text" },
+                    format!(
+                        "after op #{j} {:?}: the screen shows {:?} but the log lines (each once, in order) followed by the frame are {:?}",
+                        op, got, want
+                    ),
+                ));
+                break;
+            }
+        }
+        s.count(&format!("non_unit_width:{}:{}{}", if multi { "multi" } else { "single" }, if zero { "zero-width " } else { "" }, if wide { "double-width" } else { "" }));
+        if let Some((class, d)) = bad {
+            s.fail(class, d, desc.clone());
+        }
+        s.oracle_only(desc, true);
+    }
+    checks
 }
